@@ -56,6 +56,7 @@ def gen(seed, tier="quick"):
         "z_integral_max": knobs.choice([0.0, 0.05, 0.5, 5.0]) if randomise else 0.0,
         "psi_sp0": knobs.choice([0.0, 3.1, -3.1, 3.14, -3.14, knobs.uniform(-math.pi, math.pi)]),
         "at_w": [knobs.uniform(-6, 6) for _ in range(3)] if (randomise and knobs.random() < 0.3) else [0.0, 0.0, 0.0],
+        "thrust_trim": knobs.choice([15.0, 25.0, 30.0, 45.0]) if (randomise and knobs.random() < 0.5) else None,
     }
     tilt = ic.uniform(0, math.radians(40))
     az = ic.uniform(-math.pi, math.pi)
@@ -67,7 +68,7 @@ def gen(seed, tier="quick"):
          [ic.uniform(-1, 1) for _ in range(3)] + [HOVER_OMEGA] * 4
 
     enabled = {k: flt.random() < 0.5 for k in ("tick_missed", "tick_long", "tick_duplicate", "att_sign_flip", "att_jump", "pos_jump", "stale_state", "position_reset",
-                                                "knob_change", "feedforward_accel")}
+                                                "knob_change", "feedforward_accel", "att_scale")}
     ops = []
     k = 0
     while k < n:
@@ -122,6 +123,8 @@ def gen(seed, tier="quick"):
                 op["knobs"] = ch
             elif kind == "feedforward_accel":
                 op["at_w"] = [flt.choice([0.0, flt.uniform(-8, 8)]) for _ in range(3)]
+            elif kind == "att_scale":
+                op["s"] = flt.choice([0.9, 0.999, 1.0, 1.001, 1.1])
             ops.append(op)
     return {
         "family": NAME, "seed": seed, "n_ticks": n, "dt": 0.01, "jitter": knobs.choice([0.0, 0.1, 0.3, 0.5]),
@@ -150,7 +153,7 @@ def run(scn):
               "sign_flip_checked": 0, "shadow_zero_checks": 0, "reset_checked": 0, "plant_failed": 0, "ticks": 0, "not_judged_nonfinite": 0,
               "calls_attitude_control": 0, "calls_so3_attitude_control": 0, "calls_se23_error": 0, "calls_position_control": 0,
               "calls_se23_position_control": 0, "calls_input_velocity": 0, "calls_input_auto_level": 0, "calls_input_acro": 0,
-              "calls_attitude_rate_control": 0, "long_way_round_commanded": 0, "setpoint_quat_not_unit": 0, "near_pi_not_judged": 0}
+              "calls_attitude_rate_control": 0, "long_way_round_commanded": 0, "setpoint_quat_not_unit": 0, "near_pi_not_judged": 0, "non_unit_quaternion_judged": 0}
     faults = {}
     mem = {"rate_calls": 0, "pos_calls": 0, "prev_i1": None, "prev_zi2": None, "prev_psi": None, "prev_pwsp": None, "force_reset": 0}
 
@@ -193,12 +196,16 @@ def run(scn):
     def sub_se23pos(args):
         a = list(args)
         a[1] = kn["kp_att"]
+        if kn.get("thrust_trim"):
+            a[0] = kn["thrust_trim"]
         if any(kn.get("at_w", [0, 0, 0])):
             a[3] = kn["at_w"]
         return tuple(a)
 
     def sub_pos(args):
         a = list(args)
+        if kn.get("thrust_trim"):
+            a[0] = kn["thrust_trim"]
         if any(kn.get("at_w", [0, 0, 0])):
             a[3] = kn["at_w"]
         return tuple(a)
@@ -365,8 +372,10 @@ def run(scn):
 
     def judge_attitude_law(name, kp, q, q_r, om, jacobian):
         kp = vec(kp)
-        if not finite(q, q_r, kp) or abs(np.linalg.norm(q) - 1) > 1e-6 or abs(np.linalg.norm(q_r) - 1) > 1e-6:
+        if not finite(q, q_r, kp) or abs(np.linalg.norm(q) - 1) > 0.2 or abs(np.linalg.norm(q_r) - 1) > 0.2:
             return
+        if abs(np.linalg.norm(q) - 1) > 1e-6 or abs(np.linalg.norm(q_r) - 1) > 1e-6:
+            probes["non_unit_quaternion_judged"] += 1
         Rerr = rm.quat_to_R(q).T @ rm.quat_to_R(q_r)
         ang = rm.rot_angle(Rerr)
         if not np.all(np.isfinite(om)):
@@ -407,7 +416,7 @@ def run(scn):
         if q[0] < 0 or q_r[0] < 0:
             probes["q0_negative_seen"] += 1
         judge_attitude_law("attitude_control", kp, q, q_r, om, False)
-        if probes["calls_attitude_control"] % 25 == 1 and finite(q) and abs(np.linalg.norm(q) - 1) < 1e-6:
+        if probes["calls_attitude_control"] % 25 == 1 and finite(q) and abs(np.linalg.norm(q) - 1) < 0.2:
             shadow_zero("attitude_control", real["attitude_control"], kp, q)
 
     def mon_so3att(args, out):
@@ -418,7 +427,7 @@ def run(scn):
         if q[0] < 0 or q_r[0] < 0:
             probes["q0_negative_seen"] += 1
         judge_attitude_law("so3_attitude_control", kp, q, q_r, om, True)
-        if probes["calls_so3_attitude_control"] % 25 == 1 and finite(q) and abs(np.linalg.norm(q) - 1) < 1e-6:
+        if probes["calls_so3_attitude_control"] % 25 == 1 and finite(q) and abs(np.linalg.norm(q) - 1) < 0.2:
             shadow_zero("so3_attitude_control", real["so3_attitude_control"], kp, q)
 
     def mon_se23err(args, out):
@@ -426,7 +435,7 @@ def run(scn):
         p, v, q, p_r, v_r, q_r = [vec(a) for a in args]
         zeta = vec(out[0])
         rec.rec(env.now, "call", "se23err", zeta=zeta)
-        if not finite(p, v, q, p_r, v_r, q_r) or abs(np.linalg.norm(q) - 1) > 1e-6 or abs(np.linalg.norm(q_r) - 1) > 1e-6:
+        if not finite(p, v, q, p_r, v_r, q_r) or abs(np.linalg.norm(q) - 1) > 0.2 or abs(np.linalg.norm(q_r) - 1) > 0.2:
             return
         if not np.all(np.isfinite(zeta)):
             violation("attitude_command_not_finite", "se23_error", "se23_error returned a non-finite value")
@@ -461,7 +470,7 @@ def run(scn):
     common.wrap_eqs(node, monitors, subst)
 
     # ---- glitches between plant and controller ---------------------------------
-    gl = {"flip": False, "jump": None, "pos": None, "stale": 0}
+    gl = {"flip": False, "jump": None, "pos": None, "stale": 0, "scale": 1.0}
     real_update = node.update_fake_estimator
 
     def glitchy_update():
@@ -477,6 +486,8 @@ def run(scn):
             gl["pos"] = None
         if gl["flip"]:
             node.q = -vec(node.q)
+        if gl["scale"] != 1.0:
+            node.q = gl["scale"] * vec(node.q)  # an estimator that does not renormalise: same attitude
 
     node.update_fake_estimator = glitchy_update
 
@@ -546,6 +557,9 @@ def run(scn):
                         elif o == "feedforward_accel":
                             fault(o)
                             kn["at_w"] = list(op["at_w"])
+                        elif o == "att_scale":
+                            fault(o)
+                            gl["scale"] = float(op["s"])
                     dt = max(DT_MIN, dt)
                     t += dt
                     yield env.at(t)
@@ -603,7 +617,7 @@ def simplify(scn):
             out.append(dict(scn, n_ticks=n))
             break
     shipped = {"kp_rate": [0.3, 0.3, 0.05], "ki_rate": [0.0, 0.0, 0.0], "kd_rate": [0.1, 0.1, 0.0], "f_cut": 10.0, "i_max": [0.0, 0.0, 0.0],
-               "kp_att": [5.0, 5.0, 2.0], "z_integral_max": 0.0, "psi_sp0": 0.0, "at_w": [0.0, 0.0, 0.0]}
+               "kp_att": [5.0, 5.0, 2.0], "z_integral_max": 0.0, "psi_sp0": 0.0, "at_w": [0.0, 0.0, 0.0], "thrust_trim": None}
     for k, v in shipped.items():
         if scn["knobs"].get(k, v) != v:
             kn = dict(scn["knobs"])
